@@ -414,7 +414,7 @@ def run(ctx):
     ctx.run("C19.find_strategies.fast", bases, chunk=60, rule=rule)
 
     # slow strategy: keep to bases whose pin automaton is cheap (perms <= 4, <= 2-3 elements)
-    slow_src = sub_s3 + (rng.sample(small, 40) if quick else list(small)) + rng.sample(combined, min(len(combined), 20 if quick else 400))
+    slow_src = sub_s3 + rng.sample(small, 40 if quick else 250) + rng.sample(combined, min(len(combined), 20 if quick else 150))
     slow_src = [b for b in slow_src if all(len(p) <= 4 for p in b)]
     ctx.run("C19.applies.FinitelyManySimplesStrategy", slow_src, chunk=4,
             rule="subsets of S3, seeded <= 2-element bases, seeded required+extra bases (perms <= 4)")
@@ -431,7 +431,7 @@ def run(ctx):
     ctx.run("C19.invariance", inv, chunk=20,
             rule="bases in a seeded order with repetitions x {list, reversed tuple, doubled, set, frozenset, Basis} x 8 "
                  "symmetric images (geometric spec map); quick search")
-    ctx.run("C19.invariance.slow", (rng.sample(sub_s3, 12) if quick else sub_s3) + rng.sample(slow_src, min(len(slow_src), 8 if quick else 150)), chunk=2,
+    ctx.run("C19.invariance.slow", (rng.sample(sub_s3, 12) if quick else sub_s3) + rng.sample(slow_src, min(len(slow_src), 8 if quick else 60)), chunk=2,
             rule="slow search on 8 symmetric images, reordered with one repeat")
     ctx.assumptions += [
         "B layer: bounded.  Hypotheses of the corollaries of arXiv:1912.07503 as quoted in the docstrings of "
